@@ -29,13 +29,15 @@ universal theorems (`Props/C05.lean`: `conservation_except_K1`, `accounting_exce
   detached block a running drain has not read yet.
 * `conc_hist_exact_fails` — the full statement (without "no K1 step") is FALSE of the code: known finding K-C07-K1, the
   straggler of K-C05-K1 on the exporter's histogram; `conc_K1_witness_has_K1_step`: that schedule has exactly one K1 step.
-* `conc_render_can_miss_completed_record` — without any K1 step: a drain pass whose detach CAS fails (a block hand-over
-  between its tail load and its CAS) folds nothing, so the render it belongs to misses samples recorded before it began;
-  they stay pending (nothing lost).  Known finding K-C07-K2, replayed on the real exporter (yield point `bkt.clear.cas`).
 * `conc_render_shows_completed_partial` / `conc_render_count_ge_completed_partial` — the clause "a render shows everything
-  recorded before it began": every schedule without a K1 step in which the render's drain pass detached the chain (or
-  found the bucket empty: the tail was null at some moment after the record() calls in question had returned) — i.e. NO
-  failed detach — and the render reads the distributions while no drain is inside `clear_with`;
+  recorded before it began": every schedule without a K1 step — a drain pass that STARTS after a record() returned and has
+  ended has that sample in the distribution, when the render reads the distributions while no drain is inside
+  `clear_with` (the exporter's lock).  No hypothesis about the detach is left since the fix "clear_with retries its detach
+  when the tail moved under it" (metrics-util): a failed detach CAS is retried (`C05.detach_cas_all_or_nothing`).
+* `legacy_render_misses_completed_record` — the repaired defect (was known finding K-C07-K2), kept as a theorem about the
+  LEGACY step (`Bucket.stepLegacy`): a drain pass whose detach CAS failed folded nothing, so the render it belongs to
+  missed samples recorded before it began; `conc_render_after_failed_detach_shows_all`: the same schedule on the repaired
+  step — the pass retries and folds both samples.
 * `grants_are_steps` — the schedules the correspondence stream replays (scheduler grants) are schedules of the step machine.
 -/
 import MetricsVerif.Proofs.PromConc
@@ -215,52 +217,76 @@ theorem conc_K1_witness_has_K1_step :
     C05.stragglerClaims 2 (progsOf [[1], [2]] ([1] ++ [1])) ([0, 1, 2, 0, 0, 0, 0, 1, 2, 2, 2, 2, 2, 1, 1] ++ [3, 3]) = 1
     ∧ C05.stragglerClaims 2 (progsOf [[1], [2]] ([1] ++ [1])) [0, 1, 2, 0, 0, 0, 0, 1, 2, 2, 2, 2, 2] = 0 := by decide
 
-/-- A SECOND way in which a render can fall short, without any K1 step and without losing anything: `clear_with` loads
-    the tail and detaches with a compare-exchange; if a recording thread's block hand-over installs a new tail between the
-    two, the compare-exchange fails and `clear_with` returns having drained NOTHING.  Witness (block size 1): record(1) has
+/-- REPAIRED DEFECT (was known finding K-C07-K2), kept as a theorem about the LEGACY step (`Bucket.stepLegacy`, the
+    `clear_with` before the fix "clear_with retries its detach when the tail moved under it"): `clear_with` loaded the tail
+    and detached with a compare-exchange; when a recording thread's block hand-over installed a new tail between the two, the
+    compare-exchange failed and `clear_with` returned having drained NOTHING.  Witness (block size 1): record(1) has
     returned before the drain pass even starts; record(2) finds the block full; the drain pass loads the tail; record(2)
-    installs the new block; the drain's CAS fails.  The pass folds nothing — a `render()` taken there shows `_count` 0
-    although a record() had returned before it began — and both samples stay pending for the next pass.  Known finding
-    K-C07-K2: replayed on the real `PrometheusRecorder` with block size 64 (harness/src/c07.rs, concurrent cases i = 19, 20,
-    21, and whenever a random schedule gets there: the verification hook `bkt.clear.cas` is a yield point between the tail
-    load and the CAS).  The theorems above hold for these schedules too: nothing is lost or duplicated
-    (`C05.failed_detach_delivers_nothing_and_loses_nothing`: the failed CAS leaves the bucket untouched). -/
-theorem conc_render_can_miss_completed_record :
+    installs the new block; the drain's CAS fails.  The pass folded nothing — a `render()` taken there showed `_count` 0
+    although a record() had returned before it began — and both samples stayed pending for the next pass (nothing lost).
+    Replayed on the real `PrometheusRecorder` with block size 64 before the fix (harness/src/c07.rs, concurrent cases
+    i = 19, 20, 21: they now demand the full count). -/
+theorem legacy_render_misses_completed_record :
     let progs := progsOf [[1], [2]] [1]
     let pre := [0, 0, 0, 0, 0]
     let rest := [1, 1, 1, 2, 2, 1, 2, 1, 1]
+    completedPushes (runLegacy (Bucket.init 1 progs) pre) = 1
+    ∧ (runLegacy (Bucket.init 1 progs) pre).threads[2]? = some (mkThread [.clear])
+    ∧ quiescent (runLegacy (Bucket.init 1 progs) (pre ++ rest)) = true
+    ∧ ((runLegacy (Bucket.init 1 progs) (pre ++ rest)).threads[2]?.map (·.results)) = some [.cleared []]
+    ∧ distOf (runLegacy (Bucket.init 1 progs) (pre ++ rest)) = { count := 0, sum := 0 }
+    ∧ pendingOf (runLegacy (Bucket.init 1 progs) (pre ++ rest)) = { count := 2, sum := 3 } := by decide
+
+/-- the same programs and schedule on the REPAIRED step: after the failed CAS the drain pass is back at its tail load
+    (nothing folded yet, the call has not returned); it loads the new tail, detaches, and folds BOTH samples — the render
+    that follows shows `_count` 2, `_sum` 3, nothing pending.  No K1 step. -/
+theorem conc_render_after_failed_detach_shows_all :
+    let progs := progsOf [[1], [2]] [1]
+    let pre := [0, 0, 0, 0, 0]
+    let rest := [1, 1, 1, 2, 2, 1, 2, 1, 1]
+    let fin := [2, 2, 2, 2, 2, 2, 2, 2, 2]
     completedPushes (run (Bucket.init 1 progs) pre) = 1
     ∧ (run (Bucket.init 1 progs) pre).threads[2]? = some (mkThread [.clear])
-    ∧ quiescent (run (Bucket.init 1 progs) (pre ++ rest)) = true
-    ∧ C05.stragglerClaims 1 progs (pre ++ rest) = 0
-    ∧ ((run (Bucket.init 1 progs) (pre ++ rest)).threads[2]?.map (·.results)) = some [.cleared []]
+    ∧ ((run (Bucket.init 1 progs) (pre ++ rest)).threads[2]?.map (fun t => (t.pc, t.results))) = some (.cLoadTail, [])
     ∧ distOf (run (Bucket.init 1 progs) (pre ++ rest)) = { count := 0, sum := 0 }
-    ∧ pendingOf (run (Bucket.init 1 progs) (pre ++ rest)) = { count := 2, sum := 3 } := by decide
+    ∧ quiescent (run (Bucket.init 1 progs) (pre ++ rest ++ fin)) = true
+    ∧ C05.stragglerClaims 1 progs (pre ++ rest ++ fin) = 0
+    ∧ ((run (Bucket.init 1 progs) (pre ++ rest ++ fin)).threads[2]?.map (·.results)) = some [.cleared [2, 1]]
+    ∧ distOf (run (Bucket.init 1 progs) (pre ++ rest ++ fin)) = { count := 2, sum := 3 }
+    ∧ pendingOf (run (Bucket.init 1 progs) (pre ++ rest ++ fin)) = { count := 0, sum := 0 } := by decide
 
-/-! ### a render shows what was recorded before it began (outside K1 and outside a failed detach) -/
+/-! ### a render shows what was recorded before it began (outside K1) -/
 
-/-- **a render shows every sample recorded before it began — outside K1 and outside a failed detach.**  Any recording
-    threads, any draining threads, any block size, EVERY schedule `pre ++ m1 ++ m2` without a K1 step such that
-    * after `pre ++ m1` the bucket's tail is null — a drain pass that began after `pre` has detached the chain (a
-      successful detach CAS sets the tail to null: `conc_detach_nulls_tail`) or found the bucket empty; this is exactly
-      what a FAILED detach does not achieve (`C05.detach_cas_all_or_nothing`: it leaves the tail as it is), and
-    * after `pre ++ m1 ++ m2` no thread is inside a `clear_with` walk (the moment a `render()` reads the distributions:
+/-- **a render shows every sample recorded before it began — outside K1.**  Any recording threads, any draining threads,
+    any block size, EVERY schedule `pre ++ mid` without a K1 step such that
+    * after `pre` the draining thread `d` has not yet loaded the tail in its current drain pass (it is at `start` or at the
+      tail load of a `clear_with`) and after `pre ++ mid` that pass has ended (`d` has more results than it had) — "the
+      render's drain pass began after `pre` and is over", and
+    * after `pre ++ mid` no thread is inside a `clear_with` walk (the moment a `render()` reads the distributions:
       it holds the read lock, every drain pass holds the write lock from before its `clear_with` to after it):
     every sample whose record() had returned when `pre` ended (published slot; `C05.completed_pushes_are_published`) has
     been folded into the distribution — value by value, at least as often as it had been recorded by then.  So the
-    render shows it (`distOf` is what `_count` / `_sum` show), and by `conc_never_counted_twice` not more than once. -/
-theorem conc_render_shows_completed_partial (B : Nat) (recs : List (List Nat)) (drains : List Nat) (pre m1 m2 : List Nat)
-    (hk : C05.stragglerClaims B (progsOf recs drains) (pre ++ m1 ++ m2) = 0)
-    (hnull : (run (Bucket.init B (progsOf recs drains)) (pre ++ m1)).tail = none)
+    render shows it (`distOf` is what `_count` / `_sum` show), and by `conc_never_counted_twice` not more than once.
+    The hypothesis "the tail was null at some moment" (no failed detach) of the earlier form of this theorem is GONE: since
+    the fix "clear_with retries its detach when the tail moved under it" a pass that has ended has either seen a null tail
+    or nulled it itself (`C05.beforeDetach_run`).  What remains: no K1 step (known finding K-C07-K1), and the lock
+    hypothesis (the lock itself is not modelled). -/
+theorem conc_render_shows_completed_partial (B : Nat) (recs : List (List Nat)) (drains : List Nat) (pre mid : List Nat)
+    (d : Nat) (t0 t1 : Thread)
+    (hk : C05.stragglerClaims B (progsOf recs drains) (pre ++ mid) = 0)
+    (h0 : (run (Bucket.init B (progsOf recs drains)) pre).threads[d]? = some t0)
+    (hcall : t0.calls.head? = some .clear) (hpc : t0.pc = .start ∨ t0.pc = .cLoadTail)
+    (h1 : (run (Bucket.init B (progsOf recs drains)) (pre ++ mid)).threads[d]? = some t1)
+    (hret : t0.results.length < t1.results.length)
     (hidle : ∀ (i : Nat) (t : Thread),
-      (run (Bucket.init B (progsOf recs drains)) (pre ++ m1 ++ m2)).threads[i]? = some t → claim t.pc = none)
+      (run (Bucket.init B (progsOf recs drains)) (pre ++ mid)).threads[i]? = some t → claim t.pc = none)
     (v : Nat) :
     pubCount v (run (Bucket.init B (progsOf recs drains)) pre)
-      ≤ (delivered (run (Bucket.init B (progsOf recs drains)) (pre ++ m1 ++ m2))).count v :=
-  C05.delivered_once_tail_was_null B (progsOf recs drains) pre m1 m2 hk hnull hidle v
+      ≤ (delivered (run (Bucket.init B (progsOf recs drains)) (pre ++ mid))).count v :=
+  C05.delivered_once_clear_returned B (progsOf recs drains) pre mid d t0 t1 hk h0 hcall hpc h1 hret hidle v
 
-/-- the successful detach CAS of a drain pass is a moment at which the tail is null (first hypothesis of
-    `conc_render_shows_completed_partial` with `m1 := m1' ++ [d]`) -/
+/-- a successful detach CAS of a drain pass nulls the tail (the moment from which everything published before is owned
+    by that pass) -/
 theorem conc_detach_nulls_tail (s : Sys) (d : Nat) (t : Thread) (old : Nat)
     (ht : s.threads[d]? = some t) (hpc : t.pc = .cCas old) (hok : s.tail = some old) : (step s d).tail = none := by
   rcases C05.detach_cas_all_or_nothing s d t old ht hpc with h | h
@@ -268,20 +294,42 @@ theorem conc_detach_nulls_tail (s : Sys) (d : Nat) (t : Thread) (old : Nat)
   · exact absurd hok h.1
 
 /-- the (count, sum) form: under the same hypotheses `_count` shown by the render is at least the number of record()
-    calls that had returned before the drain began, and `_sum` at least their sum -/
+    calls that had returned before the drain pass began, and `_sum` at least their sum -/
 theorem conc_render_count_ge_completed_partial (B : Nat) (recs : List (List Nat)) (drains : List Nat)
-    (pre m1 m2 : List Nat)
-    (hk : C05.stragglerClaims B (progsOf recs drains) (pre ++ m1 ++ m2) = 0)
-    (hnull : (run (Bucket.init B (progsOf recs drains)) (pre ++ m1)).tail = none)
+    (pre mid : List Nat) (d : Nat) (t0 t1 : Thread)
+    (hk : C05.stragglerClaims B (progsOf recs drains) (pre ++ mid) = 0)
+    (h0 : (run (Bucket.init B (progsOf recs drains)) pre).threads[d]? = some t0)
+    (hcall : t0.calls.head? = some .clear) (hpc : t0.pc = .start ∨ t0.pc = .cLoadTail)
+    (h1 : (run (Bucket.init B (progsOf recs drains)) (pre ++ mid)).threads[d]? = some t1)
+    (hret : t0.results.length < t1.results.length)
     (hidle : ∀ (i : Nat) (t : Thread),
-      (run (Bucket.init B (progsOf recs drains)) (pre ++ m1 ++ m2)).threads[i]? = some t → claim t.pc = none)
+      (run (Bucket.init B (progsOf recs drains)) (pre ++ mid)).threads[i]? = some t → claim t.pc = none)
     (done : List Nat)
     (hdone : ∀ v, done.count v ≤ pubCount v (run (Bucket.init B (progsOf recs drains)) pre)) :
-    done.length ≤ (distOf (run (Bucket.init B (progsOf recs drains)) (pre ++ m1 ++ m2))).count
-    ∧ done.sum ≤ (distOf (run (Bucket.init B (progsOf recs drains)) (pre ++ m1 ++ m2))).sum := by
-  have h := length_le_of_count_le done (delivered (run (Bucket.init B (progsOf recs drains)) (pre ++ m1 ++ m2)))
-    (fun v => Nat.le_trans (hdone v) (conc_render_shows_completed_partial B recs drains pre m1 m2 hk hnull hidle v))
+    done.length ≤ (distOf (run (Bucket.init B (progsOf recs drains)) (pre ++ mid))).count
+    ∧ done.sum ≤ (distOf (run (Bucket.init B (progsOf recs drains)) (pre ++ mid))).sum := by
+  have h := length_le_of_count_le done (delivered (run (Bucket.init B (progsOf recs drains)) (pre ++ mid)))
+    (fun v => Nat.le_trans (hdone v)
+      (conc_render_shows_completed_partial B recs drains pre mid d t0 t1 hk h0 hcall hpc h1 hret hidle v))
   simpa [distOf, Dist.record, Dist.zero] using h
+
+/-- non-vacuity (block size 2), ON A FAILED DETACH: four record() calls have returned (two full blocks) when the drain
+    pass of thread 2 begins; the pass loads the tail; record(5) of thread 1 hands the tail over; the pass's CAS fails, it
+    retries, detaches and folds all five samples — every hypothesis of `conc_render_shows_completed_partial` holds -/
+example :
+    let recs := [[1, 2, 3, 4], [5]]
+    let progs := progsOf recs [1]
+    let pre := [0,0,0,0,0, 0,0,0, 0,0,0,0,0, 0,0,0]
+    let mid := [2,2, 1,1,1,1,1,1, 2, 2,2,2,2,2,2,2,2,2,2,2,2,2,2]
+    C05.stragglerClaims 2 progs (pre ++ mid) = 0
+    ∧ ((run (Bucket.init 2 progs) pre).threads[2]?.map (fun t => (t.calls.head?, t.pc, t.results.length)))
+        = some (some .clear, .start, 0)
+    ∧ ((run (Bucket.init 2 progs) (pre ++ [2,2, 1,1,1,1,1,1, 2])).threads[2]?.map (fun t => (t.pc, t.results)))
+        = some (.cLoadTail, [])
+    ∧ ((run (Bucket.init 2 progs) (pre ++ mid)).threads[2]?.map (·.results.length)) = some 1
+    ∧ ((run (Bucket.init 2 progs) (pre ++ mid)).threads.map (fun t => (claim t.pc).isSome)) = [false, false, false]
+    ∧ completedPushes (run (Bucket.init 2 progs) pre) = 4
+    ∧ distOf (run (Bucket.init 2 progs) (pre ++ mid)) = { count := 5, sum := 15 } := by decide
 
 /-- non-vacuity (block size 2): all four record() calls have returned when the drain pass of thread 2 begins; record(4)
     of thread 1 handed the tail over BEFORE the drain's tail load, so the detach succeeds (tail null after `m1`); after
@@ -294,6 +342,7 @@ example :
     let m2 := [2, 2, 2, 2, 2, 2, 2]
     C05.stragglerClaims 2 progs (pre ++ m1 ++ m2) = 0
     ∧ (run (Bucket.init 2 progs) (pre ++ m1)).tail = none
+    ∧ ((run (Bucket.init 2 progs) (pre ++ m1 ++ m2)).threads[2]?.map (·.results.length)) = some 1
     ∧ ((run (Bucket.init 2 progs) (pre ++ m1 ++ m2)).threads.map (fun t => (claim t.pc).isSome)) = [false, false, false]
     ∧ completedPushes (run (Bucket.init 2 progs) pre) = 4
     ∧ distOf (run (Bucket.init 2 progs) (pre ++ m1 ++ m2)) = { count := 4, sum := 10 } := by decide
@@ -317,11 +366,11 @@ theorem src_drain_every_key :
 
 /-! ### non-vacuity -/
 
-/-- `conc_final_render_exact_partial` on a run with a hand-over (block size 2), two recorders, a drainer with two passes
-    (the first one's CAS fails) and the final pass: all hypotheses hold, the distribution is exactly the 4 samples -/
+/-- `conc_final_render_exact_partial` on a run with a hand-over (block size 2), two recorders, a drainer whose first
+    detach CAS fails (it retries) and the final pass: all hypotheses hold, the distribution is exactly the 4 samples -/
 example :
     let recs := [[1, 2, 3], [4]]
-    let progs := progsOf recs ([2] ++ [1])
+    let progs := progsOf recs ([1] ++ [1])
     let pre := [0,0,0,0,0, 0,0, 2,2, 1,1,1,1,1, 2, 2,2,2,2, 1, 2,2,2,2, 0, 2,2,2, 0,0,0,0]
     let fin := [3, 3, 3, 3, 3, 3, 3]
     let s := run (Bucket.init 2 progs) (pre ++ fin)
@@ -329,7 +378,7 @@ example :
     ∧ (run (Bucket.init 2 progs) pre).threads[3]? = some (mkThread [.clear])
     ∧ ((run (Bucket.init 2 progs) pre).threads.map (·.pc)) = [.done, .done, .done, .start]
     ∧ quiescent s = true
-    ∧ (s.threads[2]?.map (·.results)) = some [.cleared [], .cleared [4, 1, 2]]
+    ∧ (s.threads[2]?.map (·.results)) = some [.cleared [4, 1, 2]]
     ∧ distOf s = { count := 4, sum := 10 } ∧ pendingOf s = Dist.zero := by decide
 
 /-- a run stopped in the middle (a drain pass has folded one block and waits on the next, one record() in flight):
